@@ -276,7 +276,7 @@ class DiffTree(Comp):
         if " | end:" in out or out.startswith("?cmd"):              # implementation
             r = results(out)
             try:
-                return " | ".join(["hyp=1111"] + sections(r, NPSEUDO))
+                return " | ".join(["hyp=11111"] + sections(r, NPSEUDO))
             except (IndexError, KeyError):
                 return "bad answer: " + out[:200]
         return out
